@@ -566,6 +566,25 @@ func tcRunCase(id string, in tcInput) (c Case, err error) {
 		}
 		coqTD = "(Some " + coqTxData(td) + ")"
 		obs.ValidateOK = m2.ValidateBasic() == nil
+		if obs.ValidateOK {
+			// the recorded hash is the Ethereum hash in its canonical text: the same message recording any other text —
+			// another spelling of the same digits, the digits inside junk — must not validate (the text is emitted
+			// verbatim in events and compared as text by UnwrapEthereumMsg)
+			canon := tx.Hash().Hex()
+			digits := canon[2:]
+			for _, v := range []string{"0x" + strings.ToUpper(digits), "0X" + strings.ToUpper(digits), digits, "0xdeadbeef" + digits,
+				canon + "-not-a-hash", canon + "00", " " + canon, "0x0" + digits} {
+				if v == canon {
+					continue
+				}
+				cp := *m2
+				cp.Hash = v
+				if cp.ValidateBasic() == nil {
+					fail("ValidateBasic accepts the message with the recorded Hash text %q, which is not the Ethereum hash %s", v, canon)
+					break
+				}
+			}
+		}
 		if obs.Res == 3 && feeOut && obs.ValidateOK {
 			fail("BuildTx panics on a fee above 256 bits but ValidateBasic accepts the message")
 		}
